@@ -60,83 +60,13 @@ Qed.
 
 (* ---- the literal prefix ----------------------------------------------- *)
 
-Definition bytewise (a : N) (p1 t : str) : option str :=
-  match t with
-  | b :: t1 => if a =? b then match_lit p1 t1 else None
-  | [] => None
-  end.
-
-Lemma match_lit_cons a p1 t :
-  match_lit (a :: p1) t =
-  match p1 with
-  | a1 :: a2 :: p3 =>
-    if (a =? 239) && (a1 =? 191) && (a2 =? 189) then
-      match t with
-      | [] => None
-      | b :: t1 =>
-        if prefixb [239; 191; 189] t then match_lit p3 (skipn 3 t)
-        else match rune_size t with
-             | None => match_lit p3 t1
-             | Some _ => None
-             end
-      end
-    else bytewise a p1 t
-  | _ => bytewise a p1 t
-  end.
-Proof. destruct p1 as [|a1 [|a2 p3]]; reflexivity. Qed.
-
-(* every prefix matches itself, whatever bytes it is made of *)
-Lemma match_lit_app_len k : forall p t, (length p <= k)%nat -> match_lit p (p ++ t) = Some t.
+(* strings.HasPrefix + slicing: for every prefix, whatever bytes it is made of *)
+Lemma strip_prefix_spec p t r : strip_prefix p t = Some r <-> t = p ++ r.
 Proof.
-  induction k as [|k IH]; intros p t Hl.
-  - destruct p; [reflexivity | simpl in Hl; lia].
-  - destruct p as [|a p1]; [reflexivity|]. simpl in Hl.
-    rewrite match_lit_cons.
-    assert (Hb : bytewise a p1 ((a :: p1) ++ t) = Some t).
-    { simpl. rewrite N.eqb_refl. apply IH. lia. }
-    destruct p1 as [|a1 [|a2 p3]]; try exact Hb.
-    destruct ((a =? 239) && (a1 =? 191) && (a2 =? 189)) eqn:E; [|exact Hb].
-    assert (a = 239 /\ a1 = 191 /\ a2 = 189) as (-> & -> & ->) by lia.
-    simpl. apply IH. simpl in Hl. lia.
-Qed.
-
-Lemma match_lit_app p t : match_lit p (p ++ t) = Some t.
-Proof. apply (match_lit_app_len (length p)). lia. Qed.
-
-Lemma has_fffd_cons a p : has_fffd (a :: p) = prefixb fffd (a :: p) || has_fffd p.
-Proof. reflexivity. Qed.
-
-(* a prefix without U+FFFD matches nothing but itself *)
-Lemma match_lit_exact p : forall t r,
-  has_fffd p = false -> match_lit p t = Some r -> t = p ++ r.
-Proof.
-  induction p as [|a p1 IH]; intros t r Hf Hm.
-  - simpl in Hm. now injection Hm as ->.
-  - rewrite has_fffd_cons in Hf. apply orb_false_iff in Hf as [Hf0 Hf1].
-    rewrite match_lit_cons in Hm.
-    assert (Hb : bytewise a p1 t = Some r -> t = (a :: p1) ++ r).
-    { unfold bytewise. destruct t as [|b t1]; [discriminate|].
-      destruct (N.eqb_spec a b) as [->|]; [|discriminate].
-      intros H. apply IH in H; auto. simpl. now rewrite H. }
-    destruct p1 as [|a1 [|a2 p3]]; auto.
-    destruct ((a =? 239) && (a1 =? 191) && (a2 =? 189)) eqn:E; auto.
-    exfalso. assert (a = 239 /\ a1 = 191 /\ a2 = 189) as (-> & -> & ->) by lia.
-    simpl in Hf0. discriminate.
-Qed.
-
-Lemma has_fffd_false_iff p : has_fffd p = false <-> forall a b, p <> a ++ fffd ++ b.
-Proof.
-  induction p as [|x p IH].
-  - simpl. split; [|reflexivity]. intros _ a b H. destruct a; discriminate.
-  - rewrite has_fffd_cons, orb_false_iff, IH. split.
-    + intros [H0 H1] a b E. destruct a as [|y a].
-      * simpl in E. assert (prefixb fffd (x :: p) = true) by (apply prefixb_spec; now exists b).
-        congruence.
-      * simpl in E. injection E as -> E. now apply H1 in E.
-    + intros H. split.
-      * destruct (prefixb fffd (x :: p)) eqn:E; [|reflexivity].
-        apply prefixb_spec in E as [r E]. exfalso. apply (H [] r). exact E.
-      * intros a b E. apply (H (x :: a) b). simpl. now rewrite E.
+  unfold strip_prefix. split.
+  - destruct (prefixb p t) eqn:E; [|discriminate]. apply prefixb_spec in E as [u ->].
+    rewrite skipn_app_len. now intros [= ->].
+  - intros ->. now rewrite prefixb_app, skipn_app_len.
 Qed.
 
 (* ---- cmd_match -------------------------------------------------------- *)
@@ -149,11 +79,11 @@ Qed.
 
 Lemma cmd_match_spec prefix text n raw :
   cmd_match prefix text = Some (n, raw) <->
-  exists t, match_lit prefix text = Some t /\ name_ok n /\ ~ In 10 raw /\
+  exists t, strip_prefix prefix text = Some t /\ name_ok n /\ ~ In 10 raw /\
             ((t = n /\ raw = []) \/ t = n ++ 32 :: raw).
 Proof.
   unfold cmd_match. split.
-  - destruct (match_lit prefix text) as [t|]; [|discriminate].
+  - destruct (strip_prefix prefix text) as [t|]; [|discriminate].
     destruct (span_name t) as [n1 rest] eqn:Hs.
     apply span_name_spec in Hs as (-> & Hn & Hst).
     destruct (Nat.eqb (length n1) 0 || Nat.ltb 20 (length n1)) eqn:El; [discriminate|].
@@ -181,21 +111,24 @@ Lemma cmd_match_addressed prefix text n raw :
 Proof.
   intros (Hn & Hlf & Ht). apply cmd_match_spec.
   destruct Ht as [[-> ->] | ->].
-  - exists n. rewrite match_lit_app.
-    split; [reflexivity|]. split; [exact Hn|]. split; [exact Hlf|]. now left.
-  - exists (n ++ 32 :: raw). rewrite match_lit_app.
-    split; [reflexivity|]. split; [exact Hn|]. split; [exact Hlf|]. now right.
+  - exists n.
+    split; [now apply strip_prefix_spec|]. split; [exact Hn|]. split; [exact Hlf|]. now left.
+  - exists (n ++ 32 :: raw).
+    split; [now apply strip_prefix_spec|]. split; [exact Hn|]. split; [exact Hlf|]. now right.
 Qed.
 
-(* and nothing else is, when the prefix is free of U+FFFD *)
+(* and nothing else is *)
 Lemma cmd_match_exact prefix text n raw :
-  has_fffd prefix = false ->
   cmd_match prefix text = Some (n, raw) -> addresses prefix text n raw.
 Proof.
-  intros Hf Hm. apply cmd_match_spec in Hm as (t & Hm & Hn & Hlf & Ht).
-  apply match_lit_exact in Hm; auto. subst text. unfold addresses.
+  intros Hm. apply cmd_match_spec in Hm as (t & Hm & Hn & Hlf & Ht).
+  apply strip_prefix_spec in Hm. subst text. unfold addresses.
   destruct Ht as [[-> ->] | ->]; auto.
 Qed.
+
+Lemma cmd_match_iff prefix text n raw :
+  cmd_match prefix text = Some (n, raw) <-> addresses prefix text n raw.
+Proof. split; [apply cmd_match_exact | apply cmd_match_addressed]. Qed.
 
 (* the decomposition of an addressed text is unique *)
 Lemma stops_after_name rest : rest = [] \/ (exists r, rest = 32 :: r) -> stops rest.
@@ -206,36 +139,6 @@ Lemma addresses_unique prefix text n raw n' raw' :
 Proof.
   intros H H'. apply cmd_match_addressed in H, H'. rewrite H in H'. now injection H'.
 Qed.
-
-(* what the literal consumed is never longer than the prefix (a U+FFFD of the prefix may
-   stand for a single invalid byte of the text) *)
-Lemma match_lit_consumes_len k : forall p t r, (length p <= k)%nat ->
-  match_lit p t = Some r -> exists p', t = p' ++ r /\ (length p' <= length p)%nat.
-Proof.
-  induction k as [|k IH]; intros p t r Hl Hm.
-  - destruct p; [|simpl in Hl; lia]. simpl in Hm. injection Hm as ->. now exists [].
-  - destruct p as [|a p1]; [simpl in Hm; injection Hm as ->; now exists []|].
-    simpl in Hl. rewrite match_lit_cons in Hm.
-    assert (Hb : bytewise a p1 t = Some r ->
-                 exists p', t = p' ++ r /\ (length p' <= length (a :: p1))%nat).
-    { unfold bytewise. destruct t as [|b t1]; [discriminate|].
-      destruct (N.eqb_spec a b) as [->|]; [|discriminate]. intros H.
-      apply IH in H as (p' & -> & Hp); [|lia]. exists (b :: p'). simpl. split; [reflexivity|lia]. }
-    destruct p1 as [|a1 [|a2 p3]]; auto.
-    destruct ((a =? 239) && (a1 =? 191) && (a2 =? 189)); auto.
-    destruct t as [|b t1]; [discriminate|]. simpl in Hl.
-    destruct (prefixb [239; 191; 189] (b :: t1)) eqn:Ep.
-    + apply prefixb_spec in Ep as [u Eu]. rewrite Eu in Hm |- *. simpl in Hm.
-      apply IH in Hm as (p' & -> & Hp); [|lia].
-      exists (239 :: 191 :: 189 :: p'). simpl. split; [reflexivity|lia].
-    + destruct (rune_size (b :: t1)); [discriminate|].
-      apply IH in Hm as (p' & -> & Hp); [|lia].
-      exists (b :: p'). simpl. split; [reflexivity|lia].
-Qed.
-
-Lemma match_lit_consumes p t r :
-  match_lit p t = Some r -> exists p', t = p' ++ r /\ (length p' <= length p)%nat.
-Proof. apply (match_lit_consumes_len (length p)). lia. Qed.
 
 (* ---- split_args: "split on single spaces" ------------------------------ *)
 
@@ -380,20 +283,13 @@ Qed.
 Lemma invoke_only_addressed h e c args raw :
   execute h e = Invoke c args raw ->
   exists src n, ev_source e = Some src /\ ev_command e = PRIVMSG /\
-    name_ok n /\ n <> help_name /\ ~ In 10 raw /\
+    addresses (h_prefix h) (last_param e) n raw /\ n <> help_name /\
     tbl_get n (h_cmds h) = Some c /\ args_split raw args /\
-    (c_minargs c <= Z.of_nat (length args))%Z /\
-    (has_fffd (h_prefix h) = false -> addresses (h_prefix h) (last_param e) n raw) /\
-    (exists p', (length p' <= length (h_prefix h))%nat /\
-                ((last_param e = p' ++ n /\ raw = []) \/ last_param e = p' ++ n ++ 32 :: raw)).
+    (c_minargs c <= Z.of_nat (length args))%Z.
 Proof.
   intros H. apply execute_invoke_iff in H as (src & n & Hs & Hc & Hm & Hh & Hg & -> & Hz).
-  exists src, n. pose proof Hm as Hm'.
-  apply cmd_match_spec in Hm' as (t & Hl & Hn & Hlf & Ht).
-  repeat (split; [assumption|]). split; [apply split_args_spec|]. split; [assumption|]. split.
-  - intros Hf. now apply cmd_match_exact.
-  - apply match_lit_consumes in Hl as (p' & Hp & Hlen). exists p'. split; [assumption|].
-    rewrite Hp. destruct Ht as [[-> ->] | ->]; auto.
+  exists src, n. apply cmd_match_exact in Hm.
+  repeat (split; [assumption|]). split; [apply split_args_spec | assumption].
 Qed.
 
 (* corollaries: the near-misses the statement lists *)
@@ -436,12 +332,10 @@ Qed.
 
 (* a newline anywhere in the text (the prefix itself being free of it): nothing runs *)
 Lemma newline_never_invokes h e c args raw :
-  In 10 (last_param e) -> ~ In 10 (h_prefix h) -> has_fffd (h_prefix h) = false ->
-  execute h e <> Invoke c args raw.
+  In 10 (last_param e) -> ~ In 10 (h_prefix h) -> execute h e <> Invoke c args raw.
 Proof.
-  intros Hin Hp Hf H. apply invoke_only_addressed in H
-    as (src & n & _ & _ & Hn & _ & Hlf & _ & _ & _ & Ha & _).
-  destruct (Ha Hf) as (_ & _ & Ht). destruct Hn as (_ & _ & Hn).
+  intros Hin Hp H. apply invoke_only_addressed in H as (src & n & _ & _ & Ha & _).
+  destruct Ha as ((_ & _ & Hn) & Hlf & Ht).
   assert (Hnn : ~ In 10 n).
   { intros Hi. rewrite Forall_forall in Hn. apply Hn in Hi. now apply name_char_not_lf in Hi. }
   destruct Ht as [[Et _] | Et]; rewrite Et in Hin; repeat (apply in_app_or in Hin as [Hin|Hin]; auto).
@@ -834,26 +728,20 @@ Proof.
   now rewrite (H p0 ps eq_refl).
 Qed.
 
-(* ---- the U+FFFD prefix: the converse does NOT hold for every prefix ---- *)
+(* ---- the U+FFFD prefix (repaired in cd20b6b: it used to match any invalid byte) ---- *)
 
+Definition fffd : str := [239; 191; 189].
 Definition fffd_handler : cmd_handler :=
   mk_handler fffd (fst (add [] (mk_command 0 (bs "ping") [] false 0))).
-Definition fffd_event : event :=
-  mk_event (Some (bs "nick")) PRIVMSG [bs "bot"; 255 :: bs "ping"].
+Definition fffd_event (text : str) : event :=
+  mk_event (Some (bs "nick")) PRIVMSG [bs "bot"; text].
 
-Lemma fffd_prefix_refuted :
-  exists h e c args raw,
-    new_handler (h_prefix h) = Some (mk_handler (h_prefix h) []) /\
-    reachable (h_cmds h) /\
-    execute h e = Invoke c args raw /\
-    ~ prefixb (h_prefix h) (last_param e) = true /\
-    forall n raw', ~ addresses (h_prefix h) (last_param e) n raw'.
-Proof.
-  exists fffd_handler, fffd_event, (stored (mk_command 0 (bs "ping") [] false 0) (bs "ping") []), [], [].
-  split; [reflexivity|]. split; [apply reach_add, reach_empty|]. split; [reflexivity|].
-  split; [vm_compute; discriminate|].
-  intros n raw' (_ & _ & [[Ht _] | Ht]); vm_compute in Ht; discriminate.
-Qed.
+Example ex_fffd_prefix :
+  execute fffd_handler (fffd_event (255 :: bs "ping")) = Nothing /\
+  execute fffd_handler (fffd_event (128 :: bs "ping")) = Nothing /\
+  execute fffd_handler (fffd_event (fffd ++ bs "ping")) =
+    Invoke (stored (mk_command 0 (bs "ping") [] false 0) (bs "ping") []) [] [].
+Proof. vm_compute. repeat split. Qed.
 
 (* ---- registrations and invocations together ------------------------------ *)
 
